@@ -251,8 +251,15 @@ def check_endstate(res, spec, m, r, opts):
                 continue
             # (iii) attached to the parent only
             if is_h:
+                # ... among the atoms of its own neighbourhood (the parent's neighbours and theirs).  A close contact with
+                # an atom many bonds away (e.g. an ASN HD22 0.8 A from the backbone O after the debumper gave up on a
+                # crowded input - seen on the unchanged tree) is a clash left by the torsion search, not a detachment.
+                local_nb = set(g[parent])
+                for b3 in list(local_nb):
+                    local_nb |= set(g.get(b3, []))
                 other = [(float(np.linalg.norm(P[n] - P[b2])), b2) for b2 in P
-                         if b2 != n and b2 != parent and not b2.startswith("H") and not b2.startswith("LP")]
+                         if b2 != n and b2 != parent and b2 in local_nb and not b2.startswith("H")
+                         and not b2.startswith("LP")]
                 if other and min(other)[0] < dpar - 1e-6:
                     res.violate(f"endstate/nearer-to-another-atom/{cls}", f"{n} is {dpar:.3f} A from its parent {parent} but "
                                 f"{min(other)[0]:.3f} A from {min(other)[1]}", **wit)
